@@ -53,7 +53,7 @@ class PolicyPlay:
 
 
 def bundled_setup(plans: List[P.BoardPlan], teams: Dict[str, str], play_kind: str = 'lowest', bidding: str = 'scripted',
-                  random_indices: Optional[Dict[str, List[int]]] = None) -> Callable[[prims.Sched], Callable]:
+                  random_indices: Optional[Dict[str, List[int]]] = None, fragment: Optional[str] = None) -> Callable[[prims.Sched], Callable]:
     mods = world.load()
     srv, cli, bsm, psm = mods['server'], mods['client'], mods['bs'], mods['ps']
     from bridge_env.bidding_phase import BiddingPhase as RealBP
@@ -63,6 +63,7 @@ def bundled_setup(plans: List[P.BoardPlan], teams: Dict[str, str], play_kind: st
         files: Dict[str, world.MemFile] = {}
         srv.open = world.make_open(files)
         world.install_player_thread(mods)
+        s.net.fragment = fragment
         rec: Dict[str, Any] = {'server_bp': [], 'server_pp': [], 'client_bp': {p: [] for p in SEATS}, 'client_pp': {p: [] for p in SEATS},
                                'views': {}, 'choices': {p: [] for p in SEATS}}
         w: Dict[str, Any] = {'returned': False, 'client_done': {}, 'client_exc': {}}
